@@ -1327,6 +1327,8 @@ static Janet os_execute_impl(int32_t argc, Janet *argv, JanetExecuteMode mode) {
     /* exec mode */
     if (mode == JANET_EXECUTE_EXEC) {
         int status;
+        /* execv/execvp take the environment from the global; put it back if the exec fails, envp is scratch memory */
+        char **saved_environ = environ;
         if (!use_environ) {
             environ = envp;
         }
@@ -1344,7 +1346,11 @@ static Janet os_execute_impl(int32_t argc, Janet *argv, JanetExecuteMode mode) {
 #if defined(JANET_EV) && defined(SIGPIPE)
         signal(SIGPIPE, SIG_IGN);
 #endif
-        janet_panicf("%p: %s", cargv[0], janet_strerror(errno ? errno : ENOENT));
+        environ = saved_environ;
+        if (use_environ) {
+            janet_unlock_environ();
+        }
+        janet_panicf("%s: %s", cargv[0], janet_strerror(errno ? errno : ENOENT));
     }
 
     /* Use posix_spawn to spawn new process */
